@@ -235,6 +235,20 @@ def b_each_value(ex: Exec, node: ast.Call) -> SV:
     return SV(None, T.RAW, aux=("each", match, "f*"))
 
 
+class AllObjects:
+    """Frame matcher covering every object (used with one attribute map)."""
+
+    def __call__(self, oid):
+        return z3.BoolVal(True)
+
+
+def b_field_map(ex: Exec, node: ast.Call) -> SV:
+    """field_map("f"): frame entry covering attribute f of EVERY object - a coarse but
+    quantifier-free way to say "the f attributes of some family of records may change"."""
+    name = node.args[0].value  # type: ignore[attr-defined]
+    return SV(None, T.RAW, aux=("each", AllObjects(), "fld:" + name))
+
+
 def b_maybe(ex: Exec, node: ast.Call) -> SV:
     """maybe(x): frame entry for an optional object (contributes nothing when x is None)."""
     v = ex.eval(node.args[0])
@@ -485,6 +499,7 @@ _TABLE = {
     "unchanged": b_unchanged,
     "each_value": b_each_value,
     "maybe": b_maybe,
+    "field_map": b_field_map,
     "elems": b_seq,
     "seq": b_seq,
     "apply": b_apply,
